@@ -240,6 +240,14 @@ func propC15(w *World, r *Report, tier string) {
 			}
 		}
 	}
+	serialiserRuns(w, r, "nasType", func(f *types.Func) bool {
+		file := w.Fset.Position(f.Pos()).Filename
+		if !strings.HasSuffix(file, "/qos_rule.go") && !strings.HasSuffix(file, "/qos_flow_desc.go") {
+			return false
+		}
+		return f.Name() == "MarshalBinary" || strings.HasPrefix(f.Name(), "build")
+	})
+	r.Expect("seq.len-covers", 1)
 	lenFromContent(w, r, "nasType", func(name string) bool {
 		return strings.Contains(name, "MarshalBinary") || strings.HasPrefix(name, "build")
 	}, []string{"qos_rule.go", "qos_flow_desc.go"})
